@@ -146,10 +146,20 @@ pub fn history(prop: &str, i: u64, rng: &mut Rng, out: &mut Outcome, dir: &std::
             }
             let target = *rng.pick(&cands);
             if let Some(idx) = w.act_commit_remove_target(a, g, target, rng) {
+                // in a third of the removals the member that is being removed holds an UNMERGED commit
+                // of its own for this epoch when the removal reaches it (it called self_update() and
+                // waits for the relay; the event never made it to anybody, so the history stays linear)
+                let pending = rng.chance(33) && !w.clients[target].pending_own.contains_key(&g);
+                if pending {
+                    mdk_core::verif::set_created_at(Some(w.t + 1));
+                    if with_mdk!(w.clients[target].mdk, x => x.self_update(&gid)).is_ok() {
+                        out.count("removals_reaching_a_member_with_a_pending_own_commit");
+                    }
+                }
                 broadcast(&mut w, idx, &mut returned_plaintext);
                 ex_members.insert(target);
-                labels.push("remove".into());
-                if !judge_removed(prop, i, &mut w, g, target, idx, "remove", out) {
+                labels.push(if pending { "remove(target-has-pending-commit)".into() } else { "remove".into() });
+                if !judge_removed(prop, i, &mut w, g, target, idx, if pending { "remove-while-own-commit-pending" } else { "remove" }, out) {
                     w.cleanup();
                     return;
                 }
@@ -351,6 +361,7 @@ pub fn run(ctx: &Ctx) -> i32 {
     let floors = vec![
         Floor { what: "events fed to observers", have: out.get("events_fed_to_observers"), need: 50_000 },
         Floor { what: "histories with an ex-member observer", have: out.get("histories_with_ex_member_observer"), need: 80 },
+        Floor { what: "removals that reach a member holding a pending commit of its own", have: out.get("removals_reaching_a_member_with_a_pending_own_commit"), need: 100 },
         Floor { what: "removed clients judged again after the replay", have: out.get("removed_clients_judged_after_replay"), need: 80 },
         Floor { what: "plaintexts checked against the membership timeline", have: out.get("plaintexts_checked"), need: 5000 },
         Floor { what: "removals (inactive / cannot-send probes)", have: out.get("removals"), need: 60 },
